@@ -266,6 +266,9 @@ def run(F, R, tier):
         binds = pat_bindings(lp["pat"])
         if not binds or not any(tyc(F, b_, "graph::PendingNpmResolutionItem") for b_ in binds):
             continue
+        lids_ = {b_["lid"] for b_ in binds}
+        if any(n.get("k") == "MethodCall" and n["name"] in ("push", "push_back") and peel(n["args"][0]).get("lid") in lids_ for n in walk(lp["body"])):
+            continue  # a grouping loop: the item is moved into a collection that a later loop settles
         n_loops += 1
         settle = lambda n: (n.get("k") == "MethodCall" and n["name"] == "insert" and field_of(n["recv"]) == "module_slots") or callee_matches(n, ["NpmSpecifierResolver::add_req_ref_for_item"])
         bad, _ = must_pass(F, lp["body"], settle, exit_kinds=("fallthrough", "continue", "break", "return"))
